@@ -19,7 +19,7 @@ import numpy as np
 
 from common import q, lst, natlit, zlit, blit, optlit
 
-IMPORTS = "From Verif Require Import model.Base model.Promotion.\nOpen Scope Q_scope.\n"
+IMPORTS = "From Verif Require Import model.Base model.Promotion proofs.PromotionProofs.\nOpen Scope Q_scope.\n"
 
 PRELUDE = r"""
 Inductive obs :=
@@ -77,6 +77,28 @@ Fixpoint chk_run (cfg : config) (st : state) (evs : list (event * obs * option s
   end.
 Definition seq_case := (config * list (event * obs * option snap))%type.
 Definition chk_seq (c : seq_case) : bool := chk_run (fst c) (init (fst c)) (snd c).
+(* hypothesis coverage: the events (with the Boundary resolution that reproduces the implementation) of a
+   protocol-following harness sequence must satisfy the hypotheses of c04_no_skipped_milestone
+   ([consecutive], through its proved boolean version) and of c04_resumes_only_paused ([proto_from]) *)
+Fixpoint resolve (cfg : config) (st : state) (evs : list (event * obs * option snap)) : list event :=
+  match evs with
+  | [] => []
+  | (ev, ob, sn) :: rest =>
+      match try_step cfg st (set_b ev true) ob sn with
+      | (true, Some st') => set_b ev true :: resolve cfg st' rest
+      | (true, None) => [set_b ev true]
+      | (false, _) =>
+          match try_step cfg st (set_b ev false) ob sn with
+          | (true, Some st') => set_b ev false :: resolve cfg st' rest
+          | (_, _) => [set_b ev false]
+          end
+      end
+  end.
+Definition hyp_case := (bool * seq_case)%type.
+Definition chk_hyp (c : hyp_case) : bool :=
+  let '(ckpt, (cfg, evs)) := c in
+  let evs' := resolve cfg (init cfg) evs in
+  consecutive_b cfg ckpt (init cfg) [] evs' && proto_b cfg (init cfg) evs'.
 (* diagnostics: index of the first event on which model and implementation differ, and what the model says there *)
 Fixpoint diag_run (cfg : config) (st : state) (evs : list (event * obs * option snap)) (i : Z)
   : option (Z * result (output * list (Z * nat * Q * Z) * list (Z * nat))) :=
@@ -499,7 +521,7 @@ def run_spec(spec, strict=False, max_trials=None):
     next_id = 0
     ev_terms, ev_json = [], []
     stats = dict(resumes=0, starts=0, starts_with_paused=0, max_rung_at_resume=0, errors=0, nosugg=0, late=0,
-                 pauses=0, stops=0, ignored=0, oracle_errors=0)
+                 pauses=0, stops=0, ignored=0, oracle_errors=0, malformed=0)
     t0 = datetime.datetime(2020, 1, 1)
     step_no = [0]
 
@@ -645,6 +667,8 @@ def run_spec(spec, strict=False, max_trials=None):
                 if strict:
                     return "invalid"
                 continue
+            if kind in ("J", "B"):
+                stats["malformed"] += 1
             if kind == "R":
                 resource, metric, cost = sl["ptr"] + 1, op[2], op[3]
             elif kind == "T":
@@ -732,6 +756,7 @@ def run_spec(spec, strict=False, max_trials=None):
             if next_id == 0 and not ev_terms:
                 continue  # before the first suggest the scheduler has no time keeper yet
             tid = next_id + op[1]
+            stats["malformed"] += 1
             trials[tid] = Trial(trial_id=tid, config={"x": "a" if spec["tiny_space"] else 0.5}, creation_time=t0)
             dec = do_report(tid, 1, op[2], op[3], None)
             if dec is None:
@@ -795,11 +820,12 @@ def run(ctx, replay=None):
         n = ctx.n(260, 5000)
         specs = [gen_spec(rng, force_type=TYPES[i % 4] if i < n // 2 else None) for i in range(n)]
         if ctx.tier == "thorough":
-            exh = exhaustive_specs(ctx, depth=int(os.environ.get("VERIF_C04_EXH_DEPTH", "9")), cap=30000)
+            exh = exhaustive_specs(ctx, depth=int(os.environ.get("VERIF_C04_EXH_DEPTH", "12")), cap=30000)
             ctx.notes.append("bounded-exhaustive stream (plain promotion, <=3 trials, 3 workers, rung levels [1,2,3], "
                              "3 metric tables x {min+checkpointing, max+scratch}): %d maximal interleavings" % len(exh))
             specs += exh
     terms, meta = [], []
+    hyp_terms, hyp_meta = [], []
     boundary_total = 0
     sink = io.StringIO()
     for spec in specs:
@@ -828,6 +854,9 @@ def run(ctx, replay=None):
                 signature=dict(scheduler="HyperbandScheduler", type=spec["type"], check=v["check"]))
         terms.append(res["term"])
         meta.append(dict(spec=spec, impl_events=res["events"]))
+        if st["malformed"] == 0 and st["oracle_errors"] == 0:
+            hyp_terms.append("(%s, %s)" % (blit(spec["checkpointing"]), res["term"]))
+            hyp_meta.append(len(meta) - 1)
         ctx.sample(dict(spec={k: v for k, v in spec.items() if k != "ops"}, n_ops=len(spec["ops"]),
                         rungs=res["config"], first_events=res["events"][:12], stats=st))
     ctx.notes.append("Boundary decisions seen by the checker (|value - cutoff| <= 1e-9 relative, either answer accepted): %d"
@@ -847,3 +876,12 @@ def run(ctx, replay=None):
                              diag[:700]),
                           case=dict(spec=m["spec"], impl_events=m["impl_events"][-30:]),
                           failing_input=False, broken="correspondence chk_seq (model/Promotion.v step)")
+    if hyp_terms:
+        ctx.h("hypothesis_coverage", "protocol-following sequences checked against consecutive/proto_from", len(hyp_terms))
+        for k in ctx.coq_bad_cases("hyp", IMPORTS, PRELUDE, "chk_hyp", hyp_terms, shard=24):
+            m = meta[hyp_meta[k]]
+            ctx.violation("correspondence", "a protocol-following harness sequence (type=%s, checkpointing=%s) does not "
+                          "satisfy the hypotheses `consecutive` / `proto_from` of the trace theorems"
+                          % (m["spec"]["type"], m["spec"]["checkpointing"]),
+                          case=dict(spec=m["spec"], impl_events=m["impl_events"][-30:]),
+                          failing_input=False, broken="hypothesis coverage chk_hyp (consecutive_b / proto_b)")
